@@ -81,8 +81,10 @@ func freeJobs(r *ev.Run) []job {
 			c := proch.Config{Name: fmt.Sprintf("free-n%d-own%d", n, own), Sets: sets, OwnKey: ownKey, Msgs: msgs()}
 			menu := func(nd *proch.Node, m *proch.Model, hist []proch.Event) []proch.Event {
 				var evs []proch.Event
-				if m.Cur+1 < len(sets) {
-					evs = append(evs, proch.Event{Kind: "set", Set: m.Cur + 1})
+				for si := range sets { // any set at any time, also an older one after a newer one (two chain watchers feed the channel)
+					if si != m.Cur {
+						evs = append(evs, proch.Event{Kind: "set", Set: si})
+					}
 				}
 				if len(nd.Pending) < 2 {
 					for _, mi := range msgIdx {
@@ -234,6 +236,11 @@ func permJobs(r *ev.Run) []job {
 					if len(S) > 0 {
 						dup := append(append([]proch.Event{}, base...), proch.Event{Kind: "obs", G: S[0], D: 0}, proch.Event{Kind: "msg", M: 0})
 						add(name+"+dup", n, ownKey, dup, []proch.Event{set0}, true)
+					}
+					// the set goes forward and back again somewhere in the ordering, with a re-observation
+					back := append(append([]proch.Event{}, base...), proch.Event{Kind: "set", Set: 1}, proch.Event{Kind: "set", Set: 0}, proch.Event{Kind: "msg", M: 0}, proch.Event{Kind: "obs", G: n, D: 0})
+					if len(back) <= 7 {
+						add(name+"+set-forward-and-back", n, ownKey, back, []proch.Event{set0}, false)
 					}
 					// a set update somewhere in the ordering (not confluent by design; exactly-when is still checked)
 					su := append(append([]proch.Event{}, base...), proch.Event{Kind: "set", Set: 1}, proch.Event{Kind: "obs", G: n, D: 0})
